@@ -32,6 +32,15 @@ TABLE = {
             "Scenario objects and TLC validates (pre, op, post) with the same clause operator.",
             "TLC, projection of id-valued attributes through public accessors, cut-out shapes that select exactly "
             "the chosen lanelets"),
+    "C12": ("EqContract.tla / MC_EqContract.tla / Trace_EqContract.tla",
+            "The class table (52 classes, 266 constructor-visible attribute groups with joint domains) is a TLA+ constant; "
+            "TLC explores the perturbation graph (default and fully populated seeds -> every single-group change, every "
+            "insertion-order variant; two changes in the thorough tier) and checks that the expected-equality relation is "
+            "an equivalence, sensitive to every single perturbation and insensitive to re-ordering. Every node and edge is "
+            "executed through the public constructors (==, != both ways, hash, deepcopy, independent rebuild) and TLC "
+            "validates the logged verdicts against Expected3 / the hash laws; the Python value table must match the TLA+ "
+            "table exactly and constructor signatures are compared with inspect.signature (drift = note, not violation).",
+            "TLC, the (class, group, token) -> Python value table, small-scope hypothesis on attribute domains"),
 }
 
 PENDING_REASON = "check not built yet in this round (specification module planned in DESIGN.md section 4); not claimed"
